@@ -9,6 +9,16 @@ CHECKS = {
    technique='Lean 4 proof by reflection (Brzozowski-derivative emptiness checker, decide +kernel) over patterns regenerated from source',
    ref='7/C04'),
 }
+CHECKS['C01'] = dict(
+   text='Machine-checked proof that the exact model of athlon_score equals the World Athletics formula floor(A*|x-Z|^X) over the reals (Mathlib Real.rpow) for every well-formed row, kind and mark, with the age-adjusted mark the ceiling (times) / floor (distances) to 0.01, that ages below the first masters band leave the score unadjusted and that unknown pairs give no score; obligations over the coefficient table regenerated from source are kernel-decided. That the implementation equals the model on the decimal grid (float, int forms, every age band, ESAA option) is the correspondence: sampled with every float-hazard mark in quick, the whole 0.01 grid in thorough.',
+   note='Trusted: Lean kernel + Mathlib (rpow, floor); axioms propext, Classical.choice, Quot.sound; tools/gen_tables.py; binary floating point is not modelled (the model takes the decimal mark) and is observed only through the correspondence, cross-checked against an independent Python-integer oracle. Events with a scoring row but no WMA factor raise ValueError with a masters age: observed, not demanded.',
+   technique='Lean 4 proof (exact integer-root model = real formula) + translator for coefficients + exhaustive grid correspondence',
+   ref='7/C01')
+CHECKS['C09'] = dict(
+   text='Machine-checked proof that the model of performance-needed is a Galois inverse of the score for every positive-exponent row, every kind and every target >= 1 (needed mark reaches the target, next-worse grid mark scores strictly less), negative targets behave as zero, unknown pairs give no answer. Correspondence with the implementation and the property on the implementation\'s own pair of functions are exhaustive over all table rows x targets -10..1500 in both tiers.',
+   note='Trusted: Lean kernel; axioms propext, Classical.choice, Quot.sound; tools/gen_tables.py; conversion of the returned float to hundredths (checked within 1e-6).',
+   technique='Lean 4 proof (bisection invariant over monotone exact points) + exhaustive correspondence',
+   ref='7/C09')
 NOT_YET = {}
 def main():
     props = [json.loads(l) for l in open(os.path.join(HERE, 'properties.jsonl'))]
